@@ -151,9 +151,12 @@ func checkPublished(res *vlib.Result, name string, b *vBroker, t *tally, rec map
 	t.mu.Lock()
 	defer t.mu.Unlock()
 	prom := scrape(b)
-	b.metricsW.Reset()
-	b.ctx.metrics.printMetrics()
-	logs := parseLogLines(b.metricsW.String())
+	logs := map[string]string{}
+	if b.bin == nil {
+		b.metricsW.Reset()
+		b.ctx.metrics.printMetrics()
+		logs = parseLogLines(b.metricsW.String())
+	}
 	rec["true_counts"] = t.m
 	expectProm := func(metric string, labels map[string]string, truth int) {
 		k := promKey(metric, labels)
@@ -200,6 +203,10 @@ func checkPublished(res *vlib.Result, name string, b *vBroker, t *tally, rec map
 		if strings.HasPrefix(k, "snowflake_rounded_") && (v != math.Trunc(v) || int(v)%8 != 0) {
 			res.Violate("c19:prometheus-count:not-multiple-of-8", fmt.Sprintf("%s: %s = %v", name, k, v), rec)
 		}
+	}
+	if b.bin != nil {
+		// a broker process prints its metrics log once per 24 h: only /prometheus is observable
+		return
 	}
 	for _, line := range []string{"snowflake-idle-count", "snowflake-proxy-poll-with-relay-url-count", "snowflake-proxy-poll-without-relay-url-count", "snowflake-proxy-rejected-for-relay-url-count", "client-denied-count", "client-restricted-denied-count", "client-unrestricted-denied-count", "client-snowflake-match-count"} {
 		truth := t.m["log|"+line]
@@ -261,11 +268,19 @@ func c19Case(res *vlib.Result, r *vlib.Rand, id int) {
 	if r.Bool() {
 		presumed = "^legacy-elsewhere.test$" // legacy polls get rejected
 	}
-	b := newVBroker(7000+id, nil, "snowflake.test$", presumed)
-	g4, g6 := geoipPaths()
-	if err := b.ctx.metrics.LoadGeoipDatabases(g4, g6); err != nil {
-		res.Inconcl(name + ": cannot load test geoip databases: " + err.Error())
-		return
+	var bridges []vBridge
+	if vBinaryMode {
+		// the binary applies the relay patterns only together with a bridge list
+		bridges = []vBridge{{FP: vDefaultFP, URL: "wss://relay.snowflake.test/"}}
+	}
+	b := newVBroker(7000+id, bridges, "snowflake.test$", presumed)
+	defer b.stop(res, "C19")
+	if b.bin == nil {
+		g4, g6 := geoipPaths()
+		if err := b.ctx.metrics.LoadGeoipDatabases(g4, g6); err != nil {
+			res.Inconcl(name + ": cannot load test geoip databases: " + err.Error())
+			return
+		}
 	}
 	t := newTally()
 	// counts 0..40 biased to sit around multiples of 8
@@ -379,7 +394,9 @@ func c19Case(res *vlib.Result, r *vlib.Rand, id int) {
 	res.Sample(3, rec)
 
 	// next period: the log figures restart from zero (as logMetrics does), Prometheus keeps counting
-	b.ctx.metrics.zeroMetrics()
+	if b.bin == nil {
+		b.ctx.metrics.zeroMetrics()
+	}
 	t.mu.Lock()
 	for k := range t.m {
 		if strings.HasPrefix(k, "log|") {
@@ -534,4 +551,38 @@ func TestVerifC19Broker(t *testing.T) {
 	res.RequireObs("counter_cases_concurrent", 2)
 	res.RequireObs("prometheus_samples_checked", 50)
 	res.RequireObs("log_lines_checked", 100)
+}
+
+// The accounting cases against real broker processes over loopback TCP: polls
+// come from distinct 127.0.0.0/8 source addresses, the test geoip databases are
+// loaded by the binary itself, and the published figures are what an operator's
+// Prometheus would scrape from /prometheus.
+func TestVerifC19Binary(t *testing.T) {
+	vBinaryMode = true
+	vBinaryOpts = vBinOpts{Geoip: true}
+	defer killAllBinaries()
+	res := vlib.NewResult("C19", "inpkg-broker-c19-binary", "the accounting cases (PRNG multisets of polls/denials/matches/rejections per label combination, counts around multiples of 8, sequential and concurrent) driven over TCP into real broker processes; every snowflake_rounded_* sample scraped from /prometheus of the process must equal ceil8(true count); distinct by case id")
+	defer res.Finish()
+	root := vlib.NewRand(vlib.Seed()).Split("c19-binary")
+	shard, nshards := vlib.Shard()
+	n := vlib.Scale(8, 64)
+	var wg sync.WaitGroup
+	sem := make(chan struct{}, 16)
+	for i := 0; i < n; i++ {
+		if i%nshards != shard {
+			continue
+		}
+		wg.Add(1)
+		go func(i int) {
+			defer wg.Done()
+			sem <- struct{}{}
+			c19Case(res, root.SplitN("case", i), 500+i)
+			<-sem
+		}(i)
+	}
+	wg.Wait()
+	res.RequireObs("accounting_cases", int64(n/nshards*7/10))
+	res.RequireObs("counts_not_multiple_of_8", 5)
+	res.RequireObs("prometheus_samples_checked", 30)
+	res.RequireObs("binary_broker_processes", 1)
 }
